@@ -26,6 +26,8 @@ class CallMixin:
                 return self.evargs(st, n, lambda s, a, kw: self.inline(s, fn, a, kw, n.lineno, closure=True))
             b = getattr(self, "bi_" + nm, None)
             if b is not None and nm not in st.env:
+                if nm == "isinstance":      # the second argument is a class expression, not a value
+                    return self.evseq(st, [n.args[0]], lambda s, vs: b(s, vs, {}, n))
                 return self.evargs(st, n, lambda s, a, kw: b(s, a, kw, n))
             key = nm
             if nm in self.reg.classes and nm not in self.functions and nm not in self.reg.contracts:
